@@ -687,6 +687,11 @@ func (node *Node) AsMapString(ctx *Context, vp unsafe.Pointer) error {
 		knode := NewNode(next)
 		key, _ := knode.AsStr(ctx)
 		val := NewNode(PtrOffset(next, 1))
+		if val.IsNull() { // encoding/json stores the zero value
+			m[key] = ""
+			next = PtrOffset(val.cptr, 1)
+			continue
+		}
 		m[key], ok = val.AsStr(ctx)
 		if !ok {
 			if gerr == nil {
@@ -748,6 +753,10 @@ func (node *Node) AsSliceI32(ctx *Context, vp unsafe.Pointer) error {
 	var gerr error
 	for i := 0; i < size; i++ {
 		val := NewNode(next)
+		if val.IsNull() {
+			next = PtrOffset(val.cptr, 1)
+			continue
+		}
 		ret, ok := val.AsI64(ctx)
 		if !ok || ret > math.MaxInt32 || ret < math.MinInt32 {
 			if gerr == nil {
@@ -777,6 +786,10 @@ func (node *Node) AsSliceI64(ctx *Context, vp unsafe.Pointer) error {
 	var gerr error
 	for i := 0; i < size; i++ {
 		val := NewNode(next)
+		if val.IsNull() {
+			next = PtrOffset(val.cptr, 1)
+			continue
+		}
 
 		ret, ok := val.AsI64(ctx)
 		if !ok {
@@ -807,6 +820,10 @@ func (node *Node) AsSliceU32(ctx *Context, vp unsafe.Pointer) error {
 	var gerr error
 	for i := 0; i < size; i++ {
 		val := NewNode(next)
+		if val.IsNull() {
+			next = PtrOffset(val.cptr, 1)
+			continue
+		}
 		ret, ok := val.AsU64(ctx)
 		if !ok || ret > math.MaxUint32 {
 			if gerr == nil {
@@ -836,6 +853,10 @@ func (node *Node) AsSliceU64(ctx *Context, vp unsafe.Pointer) error {
 	var gerr error
 	for i := 0; i < size; i++ {
 		val := NewNode(next)
+		if val.IsNull() {
+			next = PtrOffset(val.cptr, 1)
+			continue
+		}
 		ret, ok := val.AsU64(ctx)
 		if !ok {
 			if gerr == nil {
@@ -865,6 +886,10 @@ func (node *Node) AsSliceString(ctx *Context, vp unsafe.Pointer) error {
 	var gerr error
 	for i := 0; i < size; i++ {
 		val := NewNode(next)
+		if val.IsNull() {
+			next = PtrOffset(val.cptr, 1)
+			continue
+		}
 		ret, ok := val.AsStr(ctx)
 		if !ok {
 			if gerr == nil {
